@@ -142,8 +142,15 @@ def build_xml(shape, kindf, text, coll, negate, start, end):
         return el
 
     def tm(parent):
-        el = E(parent, "text-match", collation=COLLS[coll], negate_condition="yes" if negate else "no")
-        el.text = text
+        # as an XML parser delivers it: an empty element has text None; attributes that carry their default value
+        # (collation i;ascii-casemap, negate-condition no) are left out for the prop-text shape, spelled out elsewhere
+        attrs = {}
+        if shape != "prop-text" or COLLS[coll] != "i;ascii-casemap":
+            attrs["collation"] = COLLS[coll]
+        if shape != "prop-text" or negate:
+            attrs["negate_condition"] = "yes" if negate else "no"
+        el = E(parent, "text-match", **attrs)
+        el.text = text if len(text) > 0 else None
         return el
 
     root = ET.Element("{%s}filter" % NS)
